@@ -47,6 +47,7 @@ def one(cdir):
         res["suite"] = r.stdout.strip().splitlines()[0] if r.stdout.strip() else ""
         res["suite_rc"] = r.returncode
         # refreshed patch against current HEAD
+        sh(["git", "-C", wt, "add", "-N", "--", "src"])   # new modules too
         d = sh(["git", "-C", wt, "diff", "HEAD", "--", "src"])
         res["patch_vs_head"] = d.stdout
         res["ok"] = (res["clean_demo_rc"] == 0 and res["patched_demo_rc"] != 0 and res["suite_rc"] == 0)
